@@ -59,6 +59,9 @@ C14_InsufficientNoEffect(pre, post, admins, from, to) ==
 C07_FailedNoEffect(attributable, diff, allowed) == attributable => diff \subseteq allowed
 C07_NotDelivered(deliv, txs) == \A p \in deliv : p + 1 \in 1..Len(txs) /\ txs[p + 1].status = "SUCCESS"
 C07_ViewNoEffect(changed, metaSame) == changed = {} /\ metaSame
+\* ... and nothing stays behind in the executor that ran it: asked the same read-only questions later, it answers like a view
+\* executor that has never run anything (same = the receipts of both agree in status and result)
+C07_ViewLeavesNothing(same) == same
 C08_OneReceiptPerTx(n, nrec, orderOK) == nrec = n /\ orderOK
 C08_NextHeight(hPrev, h) == h = hPrev + 1
 
